@@ -36,6 +36,7 @@ class Suite:
     unnamed_switches: bool = False               # SwitchCase marks without name= (uuid-suffixed synthetic ids)
     shared_switch_names: bool = False            # identical SwitchCase marks of several consumers share one name
     inputs: t.Optional[dict] = None              # the caller's input_kwargs (default {'x': 1})
+    lite: bool = False                           # drop the plans that only vary VALUES (ambig / excval / E3 / falsy payload / unhashable label)
 
 
 TERM = {'deadlock', 'livelock'}
@@ -193,11 +194,12 @@ def suites(prop: str, tier: str) -> t.List[Suite]:
         ] + ([] if q else [Suite('d2', ['corpus', 'rec'], mons, 2, ['thread'], symptoms=sym, max_nodes=4, limit=20000)])
     if prop == 'C13':
         return [
-            Suite('early-failure', GEN + ['corpus'], ['left'], 0, ['async'], symptoms=LEFT),
-            Suite('early-failure-thread', GEN + ['corpus'], ['left'], 0, ['thread'], symptoms=LEFT),
+            Suite('early-failure', GEN + ['corpus'], ['left'], 0, ['async'], symptoms=LEFT, lite=True),
+            Suite('early-failure-values', ['corpus', 'oneof', 'switch'], ['left'], 0, ['async'], symptoms=LEFT, max_nodes=5),
+            Suite('early-failure-thread', GEN + ['corpus'], ['left'], 0, ['thread'], symptoms=LEFT, lite=True),
             Suite('reverse-task-order', ['plain', 'oneof', 'switch', 'rec', 'corpus'], ['left'], 0, ['async'], collab={'task_order': 'reverse'},
                   symptoms=LEFT, max_nodes=5),
-            Suite('composed', COMPOSED, ['left'], 0, ['async'] if q else ['async', 'thread'], symptoms=LEFT),
+            Suite('composed', COMPOSED, ['left'], 0, ['async'] if q else ['async', 'thread'], symptoms=LEFT, lite=True),
         ] + [
             Suite(f'set-order-{o}', ['corpus'] + ([] if q else ['oneofx']), ['left'], 0, ['async'], collab={'set_order': o}, symptoms=LEFT, min_nodes=6)
             for o in ('sorted', 'reversed')
@@ -210,6 +212,12 @@ def suites(prop: str, tier: str) -> t.List[Suite]:
             Suite('cancel-gated-collab', ['corpus', 'plain'], ['left', 'cancel'], 0, ['async'], collab={'mode': 'gated', 'store': 'rec'},
                   symptoms=LEFT, plans='cancel1', max_nodes=4 if q else 5, limit=4000),
             Suite('d1', ['corpus'] + ([] if q else ['oneof', 'rec']), ['left'], 1, ['thread'], symptoms=LEFT, max_nodes=5),
+            # two managers, the hooks of the FIRST one suspend: a node task that the end of the run (a sibling's failure, or the
+            # caller's cancellation) catches inside that hook must not go on to the second manager's hook
+            Suite('two-managers-gated-failure', ['corpus', 'plain'], ['left'], 0, ['async'],
+                  collab={'two_managers': True, 'mode': 'gated', 'gate_mgrs': [0]}, symptoms=LEFT, max_nodes=4 if q else 5, lite=True, limit=20000),
+            Suite('two-managers-gated-cancel', ['corpus', 'plain'], ['left', 'cancel'], 0, ['async'],
+                  collab={'two_managers': True, 'mode': 'gated', 'gate_mgrs': [0]}, symptoms=LEFT, plans='cancel1', max_nodes=4, limit=4000),
         ] + [
             # two event managers: the first one is suspended inside its callback while the second one raises
             Suite(f'two-managers-raise-{kind}@{k}', ['corpus', 'plain'], ['left'], 0, ['async'],
@@ -295,6 +303,8 @@ def case_plans(spec: dict, suite: Suite, fam: str) -> t.List[dict]:
         pl = pl + [dict(pl[0], **{names[-1]: ['raise:E1']})]
     else:
         pl = EN.plans(spec, pairs=suite.plans == 'pairs')
+    if suite.lite:
+        pl = [p for p in pl if not any(tok in ('ambig', 'excval', 'raise:E3', 'next0', 'unhashable') for v in p.values() for tok in v)]
     if fam == 'corpus':
         seen = {json.dumps(p, sort_keys=True) for p in pl}
         for p in corpus.extra_plans(spec):
